@@ -74,6 +74,12 @@ def _loop(worker):
 
 def _run_iteration(repo, worker, env, facts, is_first, is_last):
     lp = _loop(worker)
+    # locals set before the loop (e.g. a hoisted stride) are visible in the iteration
+    ev_pre = Evaluator(env=dict(env), facts=facts.copy(), resolve=lambda x: repo.resolve_expr(worker, x))
+    sx_pre = SymExec(ev_pre, on_undecided="havoc")
+    for s in worker.node.body[: worker.node.body.index(lp)]:
+        sx_pre.step(s)
+    env = {k: v for k, v in ev_pre.env.items() if not any(sym.startswith("?") for sym in v.symbols())}
 
     def assume(t):
         if isinstance(t, ast.Compare) and len(t.ops) == 1 and isinstance(t.ops[0], ast.Eq):
@@ -429,7 +435,7 @@ def d4_fanout(ctx):
 
 
 def run(ctx):
-    d1_tiling(ctx)
-    d2_sync(ctx)
-    d3_qc(ctx)
-    d4_fanout(ctx)
+    ctx.run(d1_tiling)
+    ctx.run(d2_sync)
+    ctx.run(d3_qc)
+    ctx.run(d4_fanout)
